@@ -426,6 +426,25 @@ class CallMixin:
             return e.attr
         raise Unsupported("class expression", e)
 
+    def b_hasattr(self, node, st):
+        """hasattr(x, "<name>") for sorts whose model says which attributes exist (sidecar handler)"""
+        if len(node.args) != 2 or not (isinstance(node.args[1], ast.Constant) and isinstance(node.args[1].value, str)):
+            raise Unsupported("hasattr with a computed name", node)
+        v = self.eval(node.args[0], st)
+        h = self.hasattr_handlers.get(v.ty.key)
+        if h is None:
+            raise Unsupported("hasattr on %s" % v.ty, node)
+        return Val(TBool, h(self, v, node.args[1].value, node, st))
+
+    def b_tuple(self, node, st):
+        """tuple(a_list) for element sorts with a registered tuple model (sidecar handler)"""
+        (a,) = node.args
+        v = self.eval(a, st)
+        h = self.tupleof_handlers.get(v.ty.key)
+        if h is None:
+            raise Unsupported("tuple() of %s" % v.ty, node)
+        return h(self, v, node, st)
+
     def b_getattr(self, node, st):
         if len(node.args) >= 2 and not isinstance(node.args[1], ast.Constant):
             base = self.eval(node.args[0], st)
